@@ -16,9 +16,10 @@ use std::hash::{Hash, Hasher};
 /// Returns `None` if the packet is too malformed to extract a flow.
 pub fn hash_flow(packet: &[u8], num_workers: usize) -> Option<usize> {
     // Skip Ethernet header (14 bytes) if present
-    let ip_start: usize = if packet.len() > 14
-        && ((packet[12] == 0x08 && packet[13] == 0x00)
-            || (packet[12] == 0x86 && packet[13] == 0xDD))
+    // Only when the frame can hold the IP header its EtherType announces (20 bytes for
+    // IPv4, 40 for IPv6), as the packet parser requires; anything else is read as raw IP
+    let ip_start: usize = if (packet.len() >= 34 && packet[12] == 0x08 && packet[13] == 0x00)
+        || (packet.len() >= 54 && packet[12] == 0x86 && packet[13] == 0xDD)
     {
         14
     } else {
